@@ -30,14 +30,15 @@ CONSTANTS NE,        \* number of elements pushed in
           SyncCons,  \* TRUE: the consumer's update() returns nothing (completes inside the call)
           Interval,  \* delay(interval); 0 for buffer
           MaxOut,    \* how many emits may be outstanding (un-awaited) at once
-          MaxTime
+          MaxTime,
+          Faults     \* TRUE: the consumer's awaitable may raise
 
 VARIABLES arrived,   \* elements 1..arrived have been offered (update called)
           q,         \* queue content
           putters,   \* parked items (queue full)
           putDone,   \* putDone[e]: the future returned by update(e) has resolved
           emitDone,  \* the producer has seen its emit awaitable complete
-          cbpc,      \* "start" | "waiting" | "has" | "awaiting" | "sleeping"
+          cbpc,      \* "start" | "waiting" | "has" | "awaiting" | "sleeping" | "dead"
           hand,      \* the element cb currently holds (0: none)
           consBusy,  \* the consumer's awaitable for `hand` is unfinished
           delivered, \* history: elements handed to the consumer, in order
@@ -93,6 +94,14 @@ ConsumerDone ==
     /\ consBusy' = FALSE
     /\ UNCHANGED <<arrived, q, putters, putDone, emitDone, cbpc, hand, delivered, rc, fired, now, last, wake>>
 
+\* the consumer's awaitable raises: the exception comes out of `yield self._emit` and ends the forwarding coroutine.
+\* Its element stays retained for ever (never reported as done); nothing drains the queue any more, so emits that are
+\* parked -- and every later emit on a full queue -- never complete.
+ConsumerFail ==
+    /\ Faults /\ consBusy
+    /\ consBusy' = FALSE /\ cbpc' = "dead"
+    /\ UNCHANGED <<arrived, q, putters, putDone, emitDone, hand, delivered, rc, fired, now, last, wake>>
+
 \* queue.get() when something is queued: pop the head, admit the first parked putter
 Take ==
     /\ hand' = Head(q)
@@ -138,7 +147,7 @@ Advance ==
     /\ UNCHANGED <<arrived, q, putters, putDone, emitDone, cbpc, hand, consBusy, delivered, rc, fired, last, wake>>
 
 Internal == CbStart \/ CbEmit \/ CbRelease \/ CbWake
-Next == (\E e \in Elems : Put(e) \/ EmitDone(e)) \/ Internal \/ ConsumerDone \/ Advance
+Next == (\E e \in Elems : Put(e) \/ EmitDone(e)) \/ Internal \/ ConsumerDone \/ ConsumerFail \/ Advance
 
 Spec == Init /\ [][Next]_vars
 FairSpec == Spec /\ WF_vars(Internal) /\ WF_vars(ConsumerDone) /\ WF_vars(Advance)
@@ -149,7 +158,7 @@ Range(s) == {s[i] : i \in 1 .. Len(s)}
 Stored == Range(q) \cup Range(putters) \cup (IF hand # 0 THEN {hand} ELSE {})
 Quiescent == cbpc \in {"waiting"} /\ q = <<>> /\ putters = <<>> /\ ~consBusy
 
-TypeOK == /\ arrived \in 0 .. NE /\ cbpc \in {"start", "waiting", "has", "awaiting", "sleeping"}
+TypeOK == /\ arrived \in 0 .. NE /\ cbpc \in {"start", "waiting", "has", "awaiting", "sleeping", "dead"}
           /\ hand \in 0 .. NE /\ consBusy \in BOOLEAN
 
 \* C02: lossless, exactly once, in arrival order
@@ -166,15 +175,18 @@ Bound == N > 0 => /\ Len(q) <= N
 ParkedNotDone == \A i \in 1 .. Len(putters) : ~putDone[putters[i]]
 \* C03: no lost wake-up: when nothing can move any more every emit has completed
 NoStuckEmit == (Quiescent /\ ~ENABLED Internal) => \A e \in 1 .. arrived : putDone[e]
-EmitsComplete == \A e \in Elems : (e <= arrived) ~> emitDone[e]
-AllDelivered == <>(Len(delivered) = NE)
+EmitsComplete == \A e \in Elems : (e <= arrived) ~> (emitDone[e] \/ cbpc = "dead")
+AllDelivered == <>(Len(delivered) = NE \/ cbpc = "dead")
 
 \* C04: the completion signal never precedes completion
-InFlight(e) == e \in Stored \/ (consBusy /\ hand = e) \/ (cbpc = "awaiting" /\ hand = e)
+InFlight(e) == e \in Stored \/ (consBusy /\ hand = e) \/ (cbpc \in {"awaiting", "dead"} /\ hand = e)
 CbSafe == \A i \in 1 .. Len(fired) : ~InFlight(fired[i])
+\* C04 / C16: an element whose consumer raised is never reported as done
+FailedNeverSignalled == cbpc = "dead" => /\ hand # 0 /\ rc[hand] = 1
+                                         /\ \A i \in 1 .. Len(fired) : fired[i] # hand
 \* C05: balance at quiescence, never negative, fired exactly once
 RcBalance == /\ \A e \in Elems : rc[e] >= 0
-             /\ \A e \in Elems : rc[e] = (IF e \in Stored \/ (cbpc = "awaiting" /\ hand = e) THEN 1 ELSE 0)
+             /\ \A e \in Elems : rc[e] = (IF e \in Stored \/ (cbpc \in {"awaiting", "dead"} /\ hand = e) THEN 1 ELSE 0)
              /\ \A e \in Elems : Cardinality({i \in 1 .. Len(fired) : fired[i] = e}) <= 1
              /\ Quiescent => \A e \in 1 .. arrived : rc[e] = 0 /\ \E i \in 1 .. Len(fired) : fired[i] = e
 NoResurrection == [][\A e \in Elems : (\E i \in 1 .. Len(fired) : fired[i] = e) => rc'[e] <= 0]_vars
